@@ -153,8 +153,15 @@ THEOREMS = [
   | None => if beq (sh_type h) MDAT then t else resolve None inp off h
   | Some _ => resolve None inp off h
   end"""),
+    ("C14_cumulative_declared_size_inputs", """forall (inp inp' : input) (lenient : bool) (mx t : N) (bs : list tbox) (fuel fuel' : nat),
+  ilen inp <= U64MAX -> ilen inp' <= U64MAX -> t <= U32MAX ->
+  tiling (Some t) inp = Some bs -> tiling None inp' = Some bs ->
+  (forall b, In b bs -> is FTYP b || is MOOV b = true -> tb_payload inp b = tb_payload inp' b) ->
+  let r := mp4_sanitize {| max_metadata_size := mx; cumulative_mdat_box_size := Some t |} lenient U64MAX' inp fuel in
+  let r' := mp4_sanitize {| max_metadata_size := mx; cumulative_mdat_box_size := None |} lenient U64MAX' inp' fuel' in
+  r <> OutOfFuel -> r' <> OutOfFuel -> r = r'"""),
 ]
-TRUSTED = fam.TRUSTED_COMMON + ["axioms: none (Print Assumptions of the three theorems = Closed under the global context)"]
+TRUSTED = fam.TRUSTED_COMMON + ["axioms: none (Print Assumptions of the four theorems = Closed under the global context)"]
 ASSUMPTIONS = fam.ASSUMPTIONS_COMMON + [
     "(b) is stated on the decoded header through the specification's tiling (Spec.tile reads an until-EOF mdat under Some t as a box of "
     "declared size t); the byte-level corollary (size field 0 replaced by t >= 2) is exercised by the pairwise oracle, not proved",
@@ -240,6 +247,10 @@ def oracle(run, pairs):
                 if a == "err parse InvalidInput" and any(ms[i] < s <= ms[j] for s in sizes):
                     continue
                 bad.append("limit %d -> %s but limit %d -> %s (moov payload sizes %s)" % (ms[i], a[:50], ms[j], b_[:50], sizes))
+        # a limit smaller than a moov payload must reject: success under limit m means every moov payload is <= m
+        for m, o in by_lim.items():
+            if o.startswith("ok") and any(sz > m for sz in sizes):
+                bad.append("limit %d accepted (%s) although a moov payload has %s bytes" % (m, o[:40], [z for z in sizes if z > m]))
         # ---- (b) cumulative
         by_cum = {c["cum"]: out}
         for t, k in plan["cums"].items():
